@@ -53,7 +53,12 @@ theorem fs_at {P : FS → Prop} {b : St} (t : Rat) (h : P b.fs) : P (b.at t).fs 
 theorem fs_fanFailedIf {P : FS → Prop} {b : St} (s : Json) (h : P b.fs) : P (b.fanFailedIf s).fs := by
   unfold St.fanFailedIf; split <;> exact h
 theorem fs_iterEnd {P : FS → Prop} {b : St} (n : Str) (i : Nat) (r : Res) (h : P b.fs) : P (b.iterEnd n i r).fs := by
-  unfold St.iterEnd; split <;> exact h
+  unfold St.iterEnd
+  split
+  · split <;> exact h
+  · exact h
+theorem fs_taskSilent {P : FS → Prop} {b : St} (c : List ((Str × Json) × Nat)) (res : Str) (p : Json) (t : Rat)
+    (h : P b.fs) : P (b.taskSilent c res p t).fs := h
 theorem fs_taskCall {P : FS → Prop} {b : St} (c : List ((Str × Json) × Nat)) (res : Str) (p : Json) (ev : Ev) (t : Rat)
     (h : P b.fs) : P (b.taskCall c res p ev t).fs := h
 theorem fs_fanFail {P : FS → Prop} {b : St} (h : P b.fs) : P ({ b with fanFail := true } : St).fs := h
@@ -104,6 +109,7 @@ local macro "pres_step" : tactic => `(tactic|
     | with_reducible apply fs_waitUntil
     | with_reducible apply fs_iterEnd
     | with_reducible apply fs_taskCall
+    | with_reducible apply fs_taskSilent
     | with_reducible apply fs_push
     | with_reducible apply ops.st_handover
     | with_reducible apply ops.st_closeKeep
@@ -322,6 +328,8 @@ theorem Bal.fanFailedIf {a b : St} (s : Json) (h : Bal a b) : Bal a (b.fanFailed
   unfold St.fanFailedIf; split <;> exact h
 theorem Bal.taskCall {a b : St} (c : List ((Str × Json) × Nat)) (res : Str) (p : Json) (ev : Ev) (t : Rat)
     (h : Bal a b) : Bal a (b.taskCall c res p ev t) := h
+theorem Bal.taskSilent {a b : St} (c : List ((Str × Json) × Nat)) (res : Str) (p : Json) (t : Rat)
+    (h : Bal a b) : Bal a (b.taskSilent c res p t) := h
 
 theorem BalB.combine {a st2 : St} (r : Res) (t1 : Rat) (rest : Except Res (List Json)) (tOk : Rat)
     (h : BalB a st2) : BalB a (fanCombine r t1 rest st2 tOk).2 := by
@@ -380,6 +388,7 @@ local macro "bal_step" : tactic => `(tactic|
     | with_reducible apply Bal.fanFailedIf
     | with_reducible apply Bal.waitUntil
     | with_reducible apply Bal.taskCall
+    | with_reducible apply Bal.taskSilent
     | with_reducible apply Bal.push
     | with_reducible apply Bal.handover
     | with_reducible apply Bal.closeKeep
@@ -505,7 +514,9 @@ theorem bal_runItems_step (proc : Json) (sel : Option Json) (input : Json) (item
             (ctxStateName ctx) i (runFrom env n states start params ctx 0 ((st0.push (.iterStarted (ctxStateName ctx) i)).startBranch)).1).endBranch
             (isFailed (runFrom env n states start params ctx 0 ((st0.push (.iterStarted (ctxStateName ctx) i)).startBranch)).1)).at st0.clock) := by
           unfold St.iterEnd
-          split <;> exact g1.2
+          split
+          · split <;> exact g1.2
+          · exact g1.2
         exact (g00.trans g2).trans (ih.runItems _ _ _ _ _ _ _ _ _ _)
       · exact g00
 
